@@ -208,3 +208,15 @@ def r5(ctx, R):
         anyk = [ast.unparse(c)[:70] for n in cfg.stmt_of for c in cfg.calls_at(n) if ast.unparse(c.func) == 'np.testing.assert_array_equal']
         ok = bool(asserts) and all(any(cfg.dominates(a, r) for a in asserts) for r in rets)
         R.check(ok, f'Sweeper.{name} :: assert_array_equal(np.triu({mat}, k={tri_k}), 0) dominates every return of the matrix', w, f'triu(.., k={tri_k}) == 0 asserted ({"strictly lower: the explicit term of node m may not contain f(u_m)" if tri_k == 0 else "lower: forward substitution"})', anyk)
+
+
+@rule('C04', 'C04.R6', 'each SDC sweep can raise the order by one only if it IS the preconditioned Picard iteration and the end point is the collocation update / copy: sweep, integrate and end-point signatures of every QDelta sweeper (shared with C01.R6 / C02)', floor=20)
+def r6(ctx, R):
+    from . import c01
+    c01.r6(ctx, R)
+
+
+@rule('C04', 'C04.R7', 'the converged iteration is the collocation method only if QDelta cancels at the fixed point: subtracted and added-back dt*QD*f terms agree (shared with C01.R1)', floor=10)
+def r7(ctx, R):
+    from . import c01
+    c01.r1(ctx, R)
